@@ -355,6 +355,19 @@ func (w *World) config() (*conf.SchedulerConfiguration, *conf.SchedulerParams, e
 	if c.Actions != "" {
 		acts = c.Actions
 	}
+	minRtArgs := ""
+	if c.DefMinRtP > 0 || c.DefMinRtR > 0 || c.MinRtMethod != "" {
+		minRtArgs = "\n    arguments:"
+		if c.DefMinRtP > 0 {
+			minRtArgs += fmt.Sprintf("\n      defaultPreemptMinRuntime: \"%ds\"", c.DefMinRtP)
+		}
+		if c.DefMinRtR > 0 {
+			minRtArgs += fmt.Sprintf("\n      defaultReclaimMinRuntime: \"%ds\"", c.DefMinRtR)
+		}
+		if c.MinRtMethod != "" {
+			minRtArgs += fmt.Sprintf("\n      reclaimResolveMethod: \"%s\"", c.MinRtMethod)
+		}
+	}
 	y := fmt.Sprintf(`
 actions: "%s"
 tiers:
@@ -379,9 +392,9 @@ tiers:
     arguments:
       cpu: %s
       gpu: %s
-  - name: minruntime
+  - name: minruntime%s
   - name: topology
-`, acts, strconv.FormatFloat(float64(c.SatMult)/1000, 'f', -1, 64), map[string]string{"binpack": "gpupack", "spread": "gpuspread"}[c.Placement], c.Placement, c.Placement)
+`, acts, strconv.FormatFloat(float64(c.SatMult)/1000, 'f', -1, 64), map[string]string{"binpack": "gpupack", "spread": "gpuspread"}[c.Placement], c.Placement, c.Placement, minRtArgs)
 	sconf := &conf.SchedulerConfiguration{}
 	if err := yaml.Unmarshal([]byte(y), sconf); err != nil {
 		return nil, nil, err
